@@ -443,6 +443,14 @@ class Analyser:
     def ev_Compare(self, st, node):
         return self.ev_BoolOp(st, node)
 
+    def ev_NamedExpr(self, st, node):
+        out = []
+        for (s, a) in self.ev(st, node.value):
+            if isinstance(node.target, ast.Name):
+                s.env[node.target.id] = a
+            out.append((s, a))
+        return out
+
     def ev_IfExp(self, st, node):
         out = []
         for s in self.assume(st.fork(), node.test, True):
